@@ -69,6 +69,8 @@ pub enum UnitInit {
 
 #[derive(Clone, Debug, PartialEq, Eq, Hash)]
 pub struct UnitSeed {
+    /// the first set starts from the two root files every real compile emits
+    pub base_roots: bool,
     pub init: UnitInit,
     pub first: Vec<SetEdit>,
     pub steps: Vec<UnitStepSeed>,
@@ -86,7 +88,7 @@ fn content(c: u16, big: bool) -> String {
 
 pub fn set_edit() -> impl Strategy<Value = SetEdit> {
     prop_oneof![
-        8 => (any::<bool>(), any::<u16>(), any::<u16>(), any::<u16>(), any::<u16>())
+        12 => (prop::bool::weighted(0.8), any::<u16>(), any::<u16>(), any::<u16>(), any::<u16>())
             .prop_map(|(nested, e, s, f, c)| SetEdit::Put { nested, e, s, f, c }),
         3 => any::<u16>().prop_map(SetEdit::Remove),
         3 => (any::<u16>(), any::<u16>()).prop_map(|(a, b)| SetEdit::Change(a, b)),
@@ -94,8 +96,7 @@ pub fn set_edit() -> impl Strategy<Value = SetEdit> {
         2 => any::<u16>().prop_map(SetEdit::RemoveSelectable),
         1 => Just(SetEdit::RemoveAllNested),
         1 => Just(SetEdit::RemoveAllRoot),
-        1 => Just(SetEdit::Clear),
-        1 => Just(SetEdit::Nothing),
+        1 => prop_oneof![4 => Just(SetEdit::Nothing), 1 => Just(SetEdit::Clear)],
     ]
 }
 
@@ -118,8 +119,8 @@ pub fn unit_seed() -> impl Strategy<Value = UnitSeed> {
     ];
     let step = (prop::collection::vec(set_edit(), 0..4), prop::bool::weighted(0.15))
         .prop_map(|(edits, new_session)| UnitStepSeed { edits, new_session });
-    (init, prop::collection::vec(set_edit(), 0..8), prop::collection::vec(step, 0..5))
-        .prop_map(|(init, first, steps)| UnitSeed { init, first, steps })
+    (prop::bool::weighted(0.8), init, prop::collection::vec(set_edit(), 0..10), prop::collection::vec(step, 0..5))
+        .prop_map(|(base_roots, init, first, steps)| UnitSeed { base_roots, init, first, steps })
 }
 
 pub fn apply_set_edits(set: &mut ArtSet, edits: &[SetEdit]) {
@@ -229,6 +230,10 @@ pub fn concretise(seed: &UnitSeed) -> (UnitCase, Vec<&'static str>) {
         }
     }
     let mut cur = ArtSet::new();
+    if seed.base_roots {
+        cur.insert((None, "iso.ts".to_string()), CONTENTS[2].to_string());
+        cur.insert((None, "tsconfig.json".to_string()), CONTENTS[5].to_string());
+    }
     apply_set_edits(&mut cur, &seed.first);
     let mut steps = vec![UnitStep { new_session: true, artifacts: cur.clone() }];
     for s in &seed.steps {
